@@ -79,6 +79,15 @@ MUTATIONS = [
     ),
 ]
 
+# found by white-box adversaries (notes/adversary/C11_miss*.md); silent when found
+A = "notes/adversary/"
+MUTATIONS += [
+    ("C11", "adv-proxy-uri-left-in-outer-message", [("@patch", A + "C11_miss1.diff", 3)]),
+    ("C11", "adv-emptied-id-context-accepted", [("@patch", A + "C11_miss2.diff", 3)]),
+    ("C11", "adv-notification-number-kept-in-request-identifiers", [("@patch", A + "C11_miss3.diff", 3)]),
+    ("C11", "adv-outer-code-chosen-by-inner-code", [("@patch", A + "C11_miss4.diff", 3)]),
+]
+
 CONTROLS = [
     # a ciphertext of tag length or less cannot carry a valid tag anyway: the AEAD rejects it (same error family)
     ("C11", "short-ciphertext-check-removed", FIX + [(OS, "            len(ciphertext) < self.alg_aead.tag_bytes + 1\n", "            len(ciphertext) < 0\n")]),
